@@ -11,7 +11,7 @@
 using namespace vf;
 
 static std::string g_smalltext(Tape &t) {
-  static const std::vector<std::string> chunks = {"a", "B", "%41", "%", "%4", "+", " ", "\r\n", "\n", "&", "=", "/", ":", "\\", "\x80", "\xff", "%0D%0A", "z"};
+  static const std::vector<std::string> chunks = {"a", "B", "%41", "%", "%4", "+", " ", "\r\n", "\n", "&", "=", "/", ":", "\\", "\x80", "\xff", "%0D%0A", "z", "%C3%A9", "%c3%a9", "%E2%82%AC", "%C0%AF", "%u00e9"};  // incl. percent-encoded UTF-8 (stays bytes in both character types)
   std::string s;
   // one text in eight starts with a prefix that software special-cases (literals compared by sizeof / memcmp / strlen are
   // where byte counts and character counts get mixed up)
@@ -138,7 +138,7 @@ template <class A> static std::vector<std::string> transcript(const std::vector<
         std::string txt;
         if (rc2 == 0) { txt = narrow<Ch>(d.get(), d.get() + (cw > 0 ? cw - 1 : 0)); if (!narrowable<Ch>(d.get(), d.get() + (cw > 0 ? cw - 1 : 0))) txt += "<characters beyond 255>"; }
         rec += "need=" + std::to_string(rc1) + "/" + std::to_string(need) + " cap=" + std::to_string(cap) + " rc=" + std::to_string(rc2) + " cw=" + std::to_string(cw) + " '" + esc(txt) + "'" +
-               (rc2 != 0 && cap >= 1 ? std::string(" first=") + std::to_string((int)(d[0] & 0xff)) : "");
+               (rc2 != 0 && cap >= 1 ? std::string(" first=") + std::to_string((int)(d[0] & 0xff)) + " left='" + esc(narrow<Ch>(d.get(), d.get() + cap)) + "' whole=" + (narrowable<Ch>(d.get() + 1, d.get() + cap) ? "1" : "0") : "");  // what a refused call leaves in the buffer, character by character
       } break;
       case 'X': {
         (*groups)["escape"]++;
